@@ -43,14 +43,20 @@ META = {'design_ref': 'DESIGN.md section 7 / C11',
  'level_note': 'Trusted: Coq kernel; the tie (facade engine.rs, harness, OCaml driver incl. the generator); the reference codec used by the simulated broker '
                '(SpecDecodeC2S / SpecEncodeS2C); abstract component hypotheses of the engine theorems (no-panic of codec / validators / resolvers) are '
                'discharged in the codec / validation / alias developments or stated as premises.',
- 'level_text': 'Coq theorems: C11_decoder_packets_total / C11_decoder_never_panics (no byte string makes the decoder model panic: every slice access is a '
-               'checked take/drop, proved sufficient, for every chunking), C11_allocator_never_panics, C11_halted_silent / C11_disconnected_silent / '
-               'C11_pending_disconnect_silent (after an error nothing is emitted and service / data are refused until the connection is closed), '
-               'C11_data_before_connect_flushed_is_error, C11_connack_wrong_state_is_error. The engine-wide statement "no reachable state of any event history '
-               'reaches one of the 40 explicit panic sites of the engine model" is the WF invariant development (EngineProofs/WF*.v: WF_init, WF_step, '
-               'C11_no_panic) — listed here when it closes; until then it is explored: the monitor mon_no_panic on every history (hostile profile: valid '
-               'packets in illegal states, adversarial / duplicate / wrong-type acks, structurally mutated packets, garbage, data while a write is pending or '
-               'an operation is half encoded, timers at every step, Duration::MAX-like timeouts) found D6, D9, D10, D14 on the original code (all fixed). '
-               'mon_close_clean and mon_error_absorbing judge the error discipline on every history.',
+ 'level_text': 'Coq theorems over ALL event histories (induction over runs of the engine model; no assumption on event order, server bytes or submitted '
+               'packets; environment guarantees only: service is called with a buffer of at least 4 bytes and a clock below 2^62 ms, ping timeout below 2^62 '
+               'ms): C11_reachable_well_formed (the well-formedness invariant WF, EngineProofs/WF*.v, holds in every reachable state), C11_no_panic (no '
+               'reachable state of any history reaches one of the explicit panic sites of the engine model: every unwrap / assert / index / fuel exhaustion of '
+               'protocol.rs is represented as Panic <site> and proved unreachable under WF), C11_error_halts (an error from open / close / data / write '
+               'completion / service leaves the engine Halted), C11_close_clean (closing from any reachable non-disconnected state returns Ok and leaves '
+               'Disconnected), C11_halted_rejects + C11_halted_silent / C11_disconnected_silent / C11_pending_disconnect_silent (after an error nothing is '
+               'emitted, nothing completed, every further service / data / write completion is refused until the connection is closed), '
+               'C11_data_before_connect_flushed_is_error, C11_connack_wrong_state_is_error; decoder robustness: C11_decoder_packets_total / '
+               'C11_decoder_never_panics (no byte string, under any chunking, makes the decoder model panic), C11_allocator_never_panics. The engine theorems '
+               'are stated for abstract codec / validator / resolver components satisfying comps_ok (each component preserves its own invariant and does not '
+               'panic under it). On the implementation the same statements are judged on every generated history (hostile profile: valid packets in illegal '
+               'states, adversarial / duplicate / wrong-type acks, structurally mutated packets, garbage, data while a write is pending, timers at every step, '
+               'Duration::MAX-like timeouts) by mon_no_panic / mon_close_clean / mon_error_absorbing; they found D6, D9, D10, D14 on the original code (all '
+               'fixed).',
  'technique': 'machine-checked proof in Coq over the engine model + lock-step correspondence of the extracted model with the implementation + extracted '
               'monitors on the implementation trace'}
